@@ -365,6 +365,76 @@ example : Gen.SrcBitEnc.get [690262600, 920350141, 3510] 3 7 24 30 24 = Rs.Res.o
 -- `set` beyond the allocated blocks: the Rust code panics (index out of bounds), so does the translation
 example : Gen.SrcBitEnc.set [5] 3 7 1 30 10 1 = Rs.Res.panic := by decide
 
+/-! ### The iterator (`BitEnc::iter`, `impl Iterator for BitEncIter`), session 5
+
+`next` is `let value = self.bitenc.get(self.i); self.i += 1; value` and `iter()` starts it at `i = 0`.  The two
+definitions below are hand-written glue over the *translated* `get` (hence `_partial`: the three statements of `next`
+and the `collect` loop of std are read by hand, `self.i += 1` as unbounded — it cannot overflow before `len` does);
+everything they call is the regenerated source text. -/
+
+/-- `BitEncIter::next` over the translated `BitEnc::get`: returns the value and the advanced cursor -/
+def iterNext (st : List Nat) (w m len u i : Nat) : Rs.Res (Option Nat × Nat) :=
+  Gen.SrcBitEnc.get st w m len u i >>= fun v => pure (v, i + 1)
+
+/-- `Iterator::collect::<Vec<u8>>()`: call `next` until it returns `None` (`Rs.Res.fuel` if the loop does not stop
+within `fuel` calls) -/
+def iterCollect (st : List Nat) (w m len u : Nat) : Nat → Nat → List Nat → Rs.Res (List Nat)
+  | 0, _, _ => Rs.Res.fuel
+  | fuel + 1, i, acc =>
+    match iterNext st w m len u i with
+    | Rs.Res.ok (some v, i') => iterCollect st w m len u fuel i' (acc ++ [v])
+    | Rs.Res.ok (none, _) => Rs.Res.ok acc
+    | Rs.Res.panic => Rs.Res.panic
+    | Rs.Res.fuel => Rs.Res.fuel
+
+/-- draining an iterator whose underlying `get` reads the list `l`: from cursor `i` with `l.take i` collected so far,
+`l.length - i + 1` calls of `next` suffice and the result is `l` -/
+theorem iterCollect_of_get (st : List Nat) (w m len u : Nat) (l : List Nat)
+    (hget : ∀ i, Gen.SrcBitEnc.get st w m len u i = Rs.Res.ok l[i]?) :
+    ∀ (k i : Nat), i ≤ l.length → l.length - i < k →
+      iterCollect st w m len u k i (l.take i) = Rs.Res.ok l := by
+  intro k
+  induction k with
+  | zero => intro i _ h; omega
+  | succ k ih =>
+    intro i hi hk
+    unfold iterCollect iterNext
+    rw [hget i]
+    by_cases hlt : i < l.length
+    · simp only [List.getElem?_eq_getElem hlt, Rs.Res.ok_bind, Rs.Res.pure_eq_ok]
+      have : l.take i ++ [l[i]] = l.take (i + 1) := by
+        rw [List.take_add_one, List.getElem?_eq_getElem hlt]; rfl
+      rw [this]
+      exact ih (i + 1) (by omega) (by omega)
+    · have hi' : i = l.length := by omega
+      subst hi'
+      simp [Rs.Res.pure_eq_ok]
+
+/-- **`bitenc.iter().collect()` on the generated code is the plain vector**: build the object with the translated
+`new`, run any admissible history with the translated operations, then drain the iterator (`next` = translated `get`
+at the cursor, cursor + 1) from a fresh `iter()`: it stops by itself after `len + 1` calls, never panics, and has
+yielded exactly the specification's vector — every element, in order, nothing after the end. -/
+theorem bitenc_iter_source_collects_partial (w : Nat) (hw : 1 ≤ w ∧ w ≤ 8) (ops : List Op) (hok : OpsOk w [] ops) :
+    ∃ st len m u,
+      Gen.SrcBitEnc.new w = Rs.Res.ok ([], w, m, 0, u) ∧
+      ops.foldlM (srcStep w m u) ([], 0) = Rs.Res.ok (st, len) ∧
+      iterCollect st w m len u (len + 1) 0 [] = Rs.Res.ok (ops.foldl (specStep w) []) ∧
+      -- an exhausted iterator stays exhausted (`next` after `None` is `None` again, the cursor only grows)
+      (∀ i, len ≤ i → iterNext st w m len u i = Rs.Res.ok (none, i + 1)) := by
+  obtain ⟨st, len, m, u, hnew, hrun, hlen, hget, _⟩ := bitenc_source_refines w hw ops hok
+  refine ⟨st, len, m, u, hnew, hrun, ?_, ?_⟩
+  · have h := iterCollect_of_get st w m len u _ hget (len + 1) 0 (by omega) (by omega)
+    simpa using h
+  · intro i hi
+    unfold iterNext
+    rw [hget i, List.getElem?_eq_none (by omega)]
+    rfl
+
+-- non-vacuity / evaluation: the state of the example above (width 3, 24 symbols in three blocks)
+example : iterCollect [690262600, 920350141, 3510] 3 7 24 30 25 0 []
+    = Rs.Res.ok [0, 1, 1, 1, 1, 1, 1, 1, 1, 5, 5, 7, 6, 6, 6, 6, 6, 6, 6, 6, 6, 6, 6, 6] := by decide
+example : iterCollect [690262600, 920350141, 3510] 3 7 24 30 24 0 [] = Rs.Res.fuel := by decide
+
 end bitenc_ops_source
 
 /-! ## SmallInts: function bodies translated from the source text (session 4, genbits)
